@@ -1,6 +1,8 @@
 import RockitModel.Proofs.Inf
 import RockitModel.Generated.InfCert
 import Mathlib.Tactic.NormNum
+import Mathlib.Tactic.IntervalCases
+import Mathlib.Algebra.Order.BigOperators.Group.Finset
 /-!
 # C15 — `grid='inf'` constraints guarantee satisfaction between grid points
 -/
@@ -97,6 +99,114 @@ theorem affine_certificate_iff (b0 b1 : K) :
     simpa using And.intro a b
 
 end certificate
+
+/-! #### the conservatism of the certificate vanishes quadratically with the step length
+
+On a step of (normalised) length `h ≤ 1` the polynomial is `s ↦ p(h·s)`. Its `i`-th Bernstein coefficient differs from its value at the
+`i`-th of the `n+1` equidistant points by at most `h²·Σ_{j≥2}|p_j|`: the constant and the linear part are reproduced exactly. So a
+trajectory that satisfies the constraint at those points with a margin `h²·Σ_{j≥2}|p_j|` passes the certificate, and the margin goes to
+zero like `h²` as `M` grows (`h = T/N/M`). -/
+section tightness
+variable {K : Type} [Field K] [LinearOrder K] [IsStrictOrderedRing K]
+
+/-- weight of `|p_j|` in the bound: only the curved part counts -/
+def curvedPart (a : List K) : K := ∑ j ∈ range a.length, if 2 ≤ j then |a.getD j 0| else 0
+
+theorem choose_ratio_mem (i n j : Nat) (hi : i ≤ n) (hj : j ≤ n) :
+    0 ≤ (Nat.choose i j : K) / (Nat.choose n j : K) ∧ (Nat.choose i j : K) / (Nat.choose n j : K) ≤ 1 := by
+  have hpos : (0 : K) < (Nat.choose n j : K) := by exact_mod_cast Nat.choose_pos hj
+  constructor
+  · positivity
+  · rw [div_le_one hpos]
+    exact_mod_cast Nat.choose_le_choose j hi
+
+theorem certificate_gap [CharZero K] (a : List K) (h : K) (h0 : 0 ≤ h) (h1 : h ≤ 1) (i : Nat) (hi : i < a.length) (hn : 2 ≤ a.length) :
+    |(toBernstein (LP.scaleArg h a)).getD i 0 - LP.eval a (h * ((i : K) / ((a.length - 1 : Nat) : K)))| ≤ h ^ 2 * curvedPart a := by
+  set n := a.length - 1 with hn'
+  have hlen : (LP.scaleArg h a).length = a.length := scaleArg_length h a
+  have hnpos : (0 : K) < (n : K) := by
+    have : 0 < n := by omega
+    exact_mod_cast this
+  have hin : i ≤ n := by omega
+  -- both quantities as sums over all coefficients
+  have hB : (toBernstein (LP.scaleArg h a)).getD i 0 =
+      ∑ j ∈ range a.length, (Nat.choose i j : K) / (Nat.choose n j : K) * (a.getD j 0 * h ^ j) := by
+    rw [toBernstein_getD _ i (by rw [hlen]; exact hi), hlen]
+    have hsub : range (i + 1) ⊆ range a.length := by
+      intro x hx; simp only [mem_range] at hx ⊢; omega
+    rw [← sum_subset hsub]
+    · apply sum_congr rfl
+      intro j _
+      rw [scaleArg_getD]
+    · intro j _ hj
+      have : i < j := by simp only [mem_range] at hj; omega
+      rw [Nat.choose_eq_zero_of_lt this]
+      simp
+  have hE : LP.eval a (h * ((i : K) / (n : K))) = ∑ j ∈ range a.length, ((i : K) / (n : K)) ^ j * (a.getD j 0 * h ^ j) := by
+    rw [LP.eval_eq_sum]
+    apply sum_congr rfl
+    intro j _
+    rw [mul_pow]; ring
+  rw [hB, hE, ← sum_sub_distrib]
+  have hq0 : 0 ≤ (i : K) / (n : K) := by positivity
+  have hq1 : (i : K) / (n : K) ≤ 1 := by
+    rw [div_le_one hnpos]; exact_mod_cast hin
+  calc |∑ j ∈ range a.length, ((Nat.choose i j : K) / (Nat.choose n j : K) * (a.getD j 0 * h ^ j) - ((i : K) / (n : K)) ^ j * (a.getD j 0 * h ^ j))|
+      ≤ ∑ j ∈ range a.length, |(Nat.choose i j : K) / (Nat.choose n j : K) * (a.getD j 0 * h ^ j) - ((i : K) / (n : K)) ^ j * (a.getD j 0 * h ^ j)| :=
+        abs_sum_le_sum_abs _ _
+    _ ≤ ∑ j ∈ range a.length, h ^ 2 * (if 2 ≤ j then |a.getD j 0| else 0) := by
+        apply sum_le_sum
+        intro j hj
+        have hjn : j ≤ n := by simp only [mem_range] at hj; omega
+        obtain ⟨r0, r1⟩ := choose_ratio_mem (K := K) i n j hin hjn
+        have e : (Nat.choose i j : K) / (Nat.choose n j : K) * (a.getD j 0 * h ^ j) - ((i : K) / (n : K)) ^ j * (a.getD j 0 * h ^ j) =
+            ((Nat.choose i j : K) / (Nat.choose n j : K) - ((i : K) / (n : K)) ^ j) * (a.getD j 0 * h ^ j) := by ring
+        rw [e]
+        rcases Nat.lt_or_ge j 2 with hj2 | hj2
+        · -- the constant and the linear part are reproduced exactly
+          have : (Nat.choose i j : K) / (Nat.choose n j : K) - ((i : K) / (n : K)) ^ j = 0 := by
+            interval_cases j
+            · simp
+            · simp
+          rw [this]
+          simp [show ¬ (2 ≤ j) by omega]
+        · rw [if_pos hj2, abs_mul, abs_mul]
+          have q0 : 0 ≤ ((i : K) / (n : K)) ^ j := pow_nonneg hq0 j
+          have q1 : ((i : K) / (n : K)) ^ j ≤ 1 := pow_le_one₀ hq0 hq1
+          have d1 : |(Nat.choose i j : K) / (Nat.choose n j : K) - ((i : K) / (n : K)) ^ j| ≤ 1 := by
+            rw [abs_le]; constructor <;> linarith
+          have hp : |h ^ j| ≤ h ^ 2 := by
+            rw [abs_of_nonneg (pow_nonneg h0 j)]
+            exact pow_le_pow_of_le_one h0 h1 hj2
+          calc |(Nat.choose i j : K) / (Nat.choose n j : K) - ((i : K) / (n : K)) ^ j| * (|a.getD j 0| * |h ^ j|)
+              ≤ 1 * (|a.getD j 0| * h ^ 2) := by
+                apply mul_le_mul d1 _ (by positivity) (by norm_num)
+                exact mul_le_mul_of_nonneg_left hp (abs_nonneg _)
+            _ = h ^ 2 * |a.getD j 0| := by ring
+    _ = h ^ 2 * curvedPart a := by rw [curvedPart, mul_sum]
+
+/-- **tightness**: a polynomial that is at least `h²·Σ_{j≥2}|p_j|` at the `n+1` equidistant points of the step passes the certificate
+(every Bernstein coefficient of `s ↦ p(h·s)` is non-negative) — the certificate rejects nothing but a margin that vanishes like `h²` -/
+theorem certificate_accepts_with_margin [CharZero K] (a : List K) (h : K) (h0 : 0 ≤ h) (h1 : h ≤ 1) (hn : 2 ≤ a.length)
+    (hm : ∀ i, i < a.length → h ^ 2 * curvedPart a ≤ LP.eval a (h * ((i : K) / ((a.length - 1 : Nat) : K)))) :
+    ∀ b ∈ toBernstein (LP.scaleArg h a), 0 ≤ b := by
+  intro b hb
+  obtain ⟨i, hi, rfl⟩ := List.getElem_of_mem hb
+  have hi' : i < a.length := by simpa [toBernstein_length, scaleArg_length] using hi
+  have g := certificate_gap a h h0 h1 i hi' hn
+  have m := hm i hi'
+  rw [abs_le] at g
+  have e : (toBernstein (LP.scaleArg h a))[i] = (toBernstein (LP.scaleArg h a)).getD i 0 := by
+    rw [List.getD_eq_getElem?_getD, List.getElem?_eq_getElem hi]; rfl
+  rw [e]
+  linarith [g.1]
+
+/-- non-vacuity: `p(s) = 1 + 2s + 3s² − 4s³` has curved part `|3| + |−4| = 7` -/
+example : curvedPart ([1, 2, 3, -4] : List ℚ) = 7 := by
+  simp [curvedPart, Finset.sum_range_succ]
+  norm_num
+
+end tightness
 
 /-! ### the conversion the code performs -/
 section conversion
